@@ -75,6 +75,15 @@ def handleStage2 : Handler
       | none => "panic"
       | some true => s!"some {showList (if p1 < p2 then [p1, p2] else [p2, p1])} {n / p1 / p2}"
       | some false => s!"some {p1} {n / p1}")
+  | ["s2_pm1same", n, b1, b2, l] => do
+    -- all prime factors of n have the same missing prime l: gcd_factors yields [n]; both paths refuse it
+    -- (check_gcd_factors always, the polynomial path through the guard read into Stage2Arms.pm1PolyGuard)
+    let n ← parseNat n; let b1 ← parseNat b1; let b2 ← parseNat b2; let l ← parseNat l
+    if b1 ≤ 3 then some "panic" else
+    some (match pm1Stage2Hits b1 b2 l with
+      | none => "panic"
+      | some true => if b2 > Stage2.multievalThreshold ∧ !Stage2Arms.pm1PolyGuard then s!"some {n} 1" else "none"
+      | some false => "none")
   | ["s2_pm1_only", n, p, l] => do
     let n ← parseNat n; let p ← parseNat p; let l ← parseNat l
     some (showArm Stage2.pm1OnlyArms n p l)
